@@ -38,6 +38,8 @@ void seq_locks_enable(bool on); int seq_locks_held(); void seq_locks_reset();
 // ---- scheduler (sched.cc)
 bool sched_active();
 int sched_lock(void *l, int exclusive);
+void sched_signal(int e);
+void sched_wait(int e);
 int sched_trylock(void *l, int exclusive);
 int sched_unlock(void *l);
 
